@@ -168,15 +168,22 @@ def symbolic_quantity_json(rep: report.Report) -> None:
     import measured
     from measured import Quantity
 
-    for kind in ("int", "float"):
+    for kind in ("int", "float", "dec"):
         mv = symnum.var(kind, "m")
+        texts: List[Any] = []
 
         def fn() -> Any:
             q = Quantity(symnum.mk(kind, mv), measured.Unit._by_name["meter"])
             doc = q.__json__()
+            if isinstance(doc["magnitude"], symnum.SStr):
+                texts.append(doc["magnitude"])
             back = Quantity.__from_json__(dict(doc))
             return doc["magnitude"], back.magnitude, back.unit
 
+        # a Decimal magnitude travels as its text: str(x) is a symbolic string in the language of
+        # str(Decimal), and what the decoder does with it (Decimal(text), int(text), float(text))
+        # is decided by the solver over that language
+        symnum.STR_MODEL[0] = kind == "dec"
         try:
             with symnum.Shims():
                 ex = explore(fn, max_paths=16)
@@ -188,7 +195,12 @@ def symbolic_quantity_json(rep: report.Report) -> None:
             rep.violation(f"C15:quantity:json:{kind}-magnitude-depends-on-value",
                           f"Quantity.__json__ converts some {kind} magnitudes ({e})", transport_replay("Quantity"))
             continue
+        finally:
+            symnum.STR_MODEL[0] = False
         rep.merge_stats(queries=ex.queries, solver_s=ex.solver_s, paths=len(ex.paths))
+        if kind == "dec":
+            decimal_text_paths(rep, ex, mv)
+            continue
         ok = len(ex.paths) == 1 and ex.paths[0].exc is None and symnum.is_sym(ex.paths[0].result[0]) and \
             symnum.kind_of(ex.paths[0].result[1]) == kind and \
             ex.paths[0].result[2] is measured.Unit._by_name["meter"]
@@ -203,6 +215,65 @@ def symbolic_quantity_json(rep: report.Report) -> None:
             rep.violation(f"C15:quantity:json:{kind}-magnitude-depends-on-value",
                           f"Quantity.__json__/__from_json__ treats some {kind} magnitudes differently: {detail}",
                           transport_replay("Quantity"))
+
+
+def decimal_text_paths(rep: report.Report, ex: Any, mv: Any) -> None:
+    """Every path of Quantity.__from_json__(Quantity.__json__(q)) for a Decimal magnitude must end
+    with a Decimal of the same value; a path that ends otherwise comes with the text that takes it."""
+    import measured
+
+    P = symnum.Prover()
+    for i, p in enumerate(ex.paths):
+        key = ("qjson", "dec", i)
+        name = f"Quantity JSON: a Decimal magnitude comes back a Decimal of the same value (path {i})"
+        if p.exc is not None and isinstance(p.exc, symnum.HarnessError):
+            rep.ob("unknown", name + f": {p.exc}", key)
+            continue
+        why = None
+        if p.exc is not None:
+            why = f"raises {type(p.exc).__name__}"
+        else:
+            text, back, unit = p.result
+            if not isinstance(text, symnum.SStr) and not isinstance(text, str):
+                why = f"the JSON form carries a {type(text).__name__}, which json cannot represent exactly"
+            elif not symnum.is_sym(back) or symnum.kind_of(back) != "dec":
+                why = f"comes back as {symnum.kind_of(back) if symnum.is_sym(back) else type(back).__name__}"
+            elif unit is not measured.Unit._by_name["meter"]:
+                why = "comes back in another unit"
+            else:
+                st, _ = P.check(p.cond, symnum.real(back.t) != symnum.real(mv))
+                if st != "unsat":
+                    why = f"comes back with another value ({st})"
+        if why is None:
+            rep.ob("unsat", name, key)
+            continue
+        rep.ob("sat", name + ": " + why, key)
+        # the text that takes this path, from the solver
+        st, m = P.check(p.cond)
+        witness = None
+        if st == "sat" and m is not None:
+            for d in m.decls():
+                if d.name().startswith("text!"):
+                    witness = m[d].as_string()
+        if witness is None:
+            rep.ob("unknown", name + ": no text witness", key + ("witness",))
+            continue
+        rep.violation("C15:quantity:json:decimal-magnitude-text",
+                      f"a Decimal magnitude printed as {witness!r} {why} from Quantity.__from_json__",
+                      families.REPLAY_IMPORTS + f"""import json
+from decimal import Decimal
+from measured import Quantity
+from measured.json import MeasuredJSONEncoder, MeasuredJSONDecoder
+q = Quantity(Decimal({witness!r}), measured.si.Meter)
+try:
+    r = json.loads(json.dumps(q, cls=MeasuredJSONEncoder), cls=MeasuredJSONDecoder)
+except Exception as e:
+    print('REPRODUCED: the JSON round trip raises', type(e).__name__, e); sys.exit(1)
+print(repr(q), '->', repr(r), type(r.magnitude).__name__)
+if not (type(r.magnitude) is Decimal and r == q and r.magnitude == q.magnitude):
+    print('REPRODUCED: a Decimal magnitude does not come back as the same Decimal'); sys.exit(1)
+sys.exit(0)
+""")
 
 
 def transport_replay(kind: str) -> str:
